@@ -610,6 +610,27 @@ where
                     c17_fold::<T>(&mut rec, &items);
                 }
             }
+            // long folds (more elements than a digit has values): per-position accumulators and deferred carries
+            // only go wrong past 2^8 / 2^16 additions into one digit position; items are short, so that the exact
+            // sum is representable, and have all-ones low bytes, so that every low column overflows
+            if n >= 3 {
+                for len in [258usize, 300, if thorough { 1000 } else { 270 }] {
+                    let k = (n / 2).max(1);
+                    let items: Vec<B> = (0..len)
+                        .map(|i| {
+                            let mut x = gen::zero(n);
+                            for t in 0..k.min(n - 2) {
+                                x[t] = if (i + t) % 7 == 0 { (r.next() & 0xff) as u8 } else { 0xff };
+                            }
+                            x
+                        })
+                        .collect();
+                    c17_fold::<T>(&mut rec, &items);
+                }
+                // a long product that stays representable: ones, a few twos and minus ones
+                let items: Vec<B> = (0..300usize).map(|i| if i % 97 == 5 { gen::small(n, 2) } else if i % 89 == 7 && T::S { gen::negate(&gen::small(n, 1)) } else { gen::small(n, 1) }).collect();
+                c17_fold::<T>(&mut rec, &items);
+            }
             for _ in 0..scale(60, 400) {
                 let x = match r.below(3) {
                     0 => gen::extreme(&mut r, n),
